@@ -21,6 +21,9 @@ pub struct EndInfo {
     pub eof_at: Option<usize>,
     pub shutdown_at: Option<usize>,
     pub dropped_at: Option<usize>,
+    /// index of the WriteBlocked / ReadBlocked event of an operation that has not completed since
+    pub write_pending_since: Option<usize>,
+    pub read_pending_since: Option<usize>,
     pub write_errs: Vec<(usize, String)>,
     pub read_errs: Vec<(usize, String)>,
     pub blocked: bool,
@@ -99,6 +102,7 @@ impl<'a> Analysis<'a> {
                     }
                     AppEv::WriteOk { stream, end, n, vectored, empty } if *stream < streams.len() => {
                         let e = &mut streams[*stream].ends[*end];
+                        e.write_pending_since = None;
                         let tot = e.total_written() + n;
                         e.writes.push((idx, tot));
                         if *empty {
@@ -110,10 +114,18 @@ impl<'a> Analysis<'a> {
                             e.vectored_writes += 1;
                         }
                     }
-                    AppEv::WriteBlocked { stream, end } if *stream < streams.len() => streams[*stream].ends[*end].blocked = true,
-                    AppEv::WriteErr { stream, end, kind } if *stream < streams.len() => streams[*stream].ends[*end].write_errs.push((idx, kind.clone())),
+                    AppEv::WriteBlocked { stream, end } if *stream < streams.len() => {
+                        streams[*stream].ends[*end].blocked = true;
+                        streams[*stream].ends[*end].write_pending_since = Some(idx);
+                    }
+                    AppEv::ReadBlocked { stream, end } if *stream < streams.len() => streams[*stream].ends[*end].read_pending_since = Some(idx),
+                    AppEv::WriteErr { stream, end, kind } if *stream < streams.len() => {
+                        streams[*stream].ends[*end].write_pending_since = None;
+                        streams[*stream].ends[*end].write_errs.push((idx, kind.clone()));
+                    }
                     AppEv::ReadOk { stream, end, n } if *stream < streams.len() => {
                         let e = &mut streams[*stream].ends[*end];
+                        e.read_pending_since = None;
                         let tot = e.total_read() + n;
                         e.reads.push((idx, tot));
                     }
@@ -125,13 +137,21 @@ impl<'a> Analysis<'a> {
                             }
                         }
                     }
-                    AppEv::ReadEof { stream, end } if *stream < streams.len() => streams[*stream].ends[*end].eof_at = Some(idx),
-                    AppEv::ReadErr { stream, end, kind } if *stream < streams.len() => streams[*stream].ends[*end].read_errs.push((idx, kind.clone())),
+                    AppEv::ReadEof { stream, end } if *stream < streams.len() => {
+                        streams[*stream].ends[*end].read_pending_since = None;
+                        streams[*stream].ends[*end].eof_at = Some(idx);
+                    }
+                    AppEv::ReadErr { stream, end, kind } if *stream < streams.len() => {
+                        streams[*stream].ends[*end].read_pending_since = None;
+                        streams[*stream].ends[*end].read_errs.push((idx, kind.clone()));
+                    }
                     AppEv::Shutdown { stream, end } if *stream < streams.len() => {
                         streams[*stream].ends[*end].shutdown_at.get_or_insert(idx);
                     }
                     AppEv::Dropped { stream, end } if *stream < streams.len() => {
                         streams[*stream].ends[*end].dropped_at.get_or_insert(idx);
+                        streams[*stream].ends[*end].write_pending_since = None;
+                        streams[*stream].ends[*end].read_pending_since = None;
                     }
                     _ => {}
                 },
@@ -143,6 +163,9 @@ impl<'a> Analysis<'a> {
     }
 
     pub fn ctx(&self, n: usize) -> String {
+        if std::env::var("VERIF_TRACE").is_ok() {
+            return self.run.tail(100_000).replace("; ", "\n   ");
+        }
         self.run.tail(n)
     }
 
@@ -353,7 +376,9 @@ impl<'a> Analysis<'a> {
                     }
                 }
                 let nobody_dropped = s.ends[0].dropped_at.is_none() && s.ends[1].dropped_at.is_none();
-                if nobody_dropped && s.accepted_at.is_some() {
+                // a colliding Connect on the same id is legitimately answered with a Reset on that id
+                let connects_on_id = self.run.events.iter().filter(|e| matches!(&e.ev, Ev::Sent { msg: WMsg::Frame(RFrame::Connect { id: c, .. }), .. } if *c == id)).count();
+                if nobody_dropped && s.accepted_at.is_some() && connects_on_id == 1 {
                     for st in &self.run.events {
                         if let Ev::Sent { side, msg: WMsg::Frame(RFrame::Reset { id: rid }), .. } = &st.ev {
                             if *rid == id && !(raw && *side == 1) {
@@ -404,6 +429,27 @@ impl<'a> Analysis<'a> {
                                 ));
                             }
                         }
+                    }
+                }
+                // at quiescence on a healthy connection: a pending read must have seen the peer's shutdown/abort,
+                // a pending write must have seen the peer's abort (a Reset is sent for it)
+                if self.healthy && self.case.raw.is_none() && s.open_ok_at.is_some() && s.accepted_at.is_some() {
+                    if me.read_pending_since.is_some() && (peer.shutdown_at.is_some() || peer.dropped_at.is_some()) && me.dropped_at.is_none() {
+                        return Err((
+                            "c05-eof-not-delivered".into(),
+                            format!(
+                                "stream {i} end {end}: the peer {} the stream, everything is quiescent, but the pending read never returned end-of-stream ({} of {} bytes read)",
+                                if peer.shutdown_at.is_some() { "shut down" } else { "dropped (aborted)" },
+                                me.total_read(),
+                                peer.total_written()
+                            ),
+                        ));
+                    }
+                    if me.write_pending_since.is_some() && peer.dropped_at.is_some() && peer.shutdown_at.is_none() && me.dropped_at.is_none() {
+                        return Err((
+                            "c05-write-hangs-after-abort".into(),
+                            format!("stream {i} end {end}: the peer aborted the stream (dropped without shutdown), everything is quiescent, but the blocked write never failed with BrokenPipe"),
+                        ));
                     }
                 }
                 // writes after own shutdown must fail
